@@ -5,6 +5,8 @@ CONSTANTS
   FIX_CLOSE = FALSE
   USER_NESTS = FALSE
   USER_REMOVES_ENTRIES = FALSE
+  USER_RENAMES = FALSE
+  RECHECK_ON_RENAME = FALSE
   FIX_BYUSER = TRUE
 INVARIANTS FdsMatch ListOK AllGone Released CreateOnce
 CHECK_DEADLOCK FALSE
